@@ -99,12 +99,22 @@ pub struct ExploreStats {
 /// Explore every execution of `body` with at most `budget` deviations.
 /// `on_exec` is called after every execution with the finished context.
 /// `max_exec` caps the number of executions (reported as capped).
-pub fn explore<B>(budget: u32, max_exec: u64, mut body: B) -> ExploreStats
+pub fn explore<B>(budget: u32, max_exec: u64, body: B) -> ExploreStats
 where
     B: FnMut(&mut Ctx),
 {
+    explore_from(&[], budget, max_exec, body)
+}
+
+/// Like `explore`, but every execution starts with the choices `start`, which are never varied
+/// (exploration of the subtree below a recorded execution prefix).
+pub fn explore_from<B>(start: &[u32], budget: u32, max_exec: u64, mut body: B) -> ExploreStats
+where
+    B: FnMut(&mut Ctx),
+{
+    let frozen = start.len();
     let mut stats = ExploreStats::default();
-    let mut prefix: Vec<u32> = vec![];
+    let mut prefix: Vec<u32> = start.to_vec();
     let mut expect: Vec<(u32, bool, &'static str)> = vec![];
     loop {
         let plen = prefix.len();
@@ -132,7 +142,7 @@ where
             }
         }
         let mut next: Option<usize> = None;
-        for i in (0..tr.len()).rev() {
+        for i in (frozen..tr.len()).rev() {
             let c = &tr[i];
             if c.taken + 1 < c.n {
                 if c.dev && c.taken == 0 && devs_before[i] + 1 > budget {
